@@ -208,12 +208,27 @@ func serializeDatetimeFromUnixNano(buf *bytes.Buffer, t int64) {
 
 func serializeString(buf *bytes.Buffer, s string) {
 	buf.Write([]byte{91, 83, 93})
-	buf.WriteString(strings.ToUpper(option.TrimSpace(s)))
+	writeKeyText(buf, strings.ToUpper(option.TrimSpace(s)))
 }
 
 func serializeCaseSensitiveString(buf *bytes.Buffer, s string) {
 	buf.Write([]byte{91, 83, 93})
-	buf.WriteString(option.TrimSpace(s))
+	writeKeyText(buf, option.TrimSpace(s))
+}
+
+// writeKeyText writes a text as part of a comparison key. Keys of several values are joined with a colon,
+// so a colon (and the escape character itself) inside a text is escaped to keep the joined key unambiguous.
+func writeKeyText(buf *bytes.Buffer, s string) {
+	if !strings.ContainsAny(s, ":\\") {
+		buf.WriteString(s)
+		return
+	}
+	for i := 0; i < len(s); i++ {
+		if s[i] == ':' || s[i] == '\\' {
+			buf.WriteByte('\\')
+		}
+		buf.WriteByte(s[i])
+	}
 }
 
 func serializeBoolean(buf *bytes.Buffer, b bool) {
